@@ -325,7 +325,10 @@ def b_cast(I, args, kwargs):
 
 
 def b_id(I, args, kwargs):
-    raise OutsideSubset("id()")
+    v = I.force(args[0])
+    if isinstance(v, (SObj, list, dict, set, SList)):
+        return id(v)          # object identity of the modelled object: only meaningful for equality / membership within one path
+    raise OutsideSubset("id() of a value without identity in the model")
 
 
 def b_iter(I, args, kwargs):
